@@ -17,6 +17,7 @@ change".  A function that is new, or whose shape has changed beyond the comparis
 import json, os
 from . import cdb, ir, own
 from .ir import norm, show, root_var, subterms
+from .dataflow import cond_atoms as cond_atoms_
 from .dataflow import Solver
 
 HERE = os.path.dirname(os.path.abspath(__file__))
@@ -363,6 +364,40 @@ def uninit_reads(f):
     return out, reads[0]
 
 
+LIBC_NEGATIVE_STATUS = {"asprintf": {-1}, "vasprintf": {-1}, "libcperciva_asprintf": {-1}, "socket": {-1}, "accept": {-1}, "open": {-1}, "recv": {-1}, "send": {-1},
+                        "read": {-1}, "write": {-1}, "fcntl": {-1}}
+
+def result_tests(prog, f):
+    """[(condition element, call, constant compared with, constants the callee returns)] for comparisons `g(...) == c` / `!= c` in f
+    where g is a function of the analysed program all of whose returns are integer constants and c is not one of them."""
+    out = []
+    n = 0
+    for b in f.blocks.values():
+        if b.cond is None or len(b.succs) != 2:
+            continue
+        for op, L, R, Le, _ in cond_atoms_(b.cond, True):
+            k = Le.strip() if Le is not None else None
+            if k is None or k.cls != "CallExpr" or not k.callee or R[0] != "c" or op not in ("==", "!=") or not isinstance(R[1], int):
+                continue
+            if k.callee in LIBC_NEGATIVE_STATUS:
+                # answers a non-negative result or one negative status: an equality test with another negative constant never holds
+                n += 1
+                if R[1] < 0 and R[1] not in LIBC_NEGATIVE_STATUS[k.callee]:
+                    out.append((b.cond, k, R[1], sorted(LIBC_NEGATIVE_STATUS[k.callee]) + ["a non-negative result"]))
+                continue
+            g = prog.resolve(f, k.callee) if hasattr(prog, "resolve") else None
+            if g is None or g.file.startswith("/"):
+                continue
+            vals = [norm(r.kid(0)) for r in g.returns() if r.kids]
+            if not vals or not all(v[0] == "c" and isinstance(v[1], int) for v in vals):
+                continue
+            n += 1
+            ks = sorted(set(v[1] for v in vals))
+            if R[1] not in ks:
+                out.append((b.cond, k, R[1], ks))
+    return out, n
+
+
 def apply(rep, pid, files, tier):
     """Run the reference rules on the .c files among `files` that are library units."""
     from . import cdb as _cdb
@@ -406,6 +441,17 @@ def apply(rep, pid, files, tier):
                                 % name, function=f.name, construct="uninit:" + name)
                     if not bad:
                         rep.ok("UNINIT", "%s: every read of a local follows an assignment to it" % f.name, f.loc, "%d reads" % nreads)
+            # RESULT-TEST (no reference needed)
+            if f.file == up or f.file in files:
+                bad, nt = result_tests(prog, f)
+                if nt:
+                    n += 1
+                    for ce, call, c, ks in bad:
+                        rep.bad("RESULT-TEST", "%s: `%s`" % (f.name, ce.text[:50]), ce.where,
+                                "%s() returns only %s; comparing its result with %d is never true: the failure it reports goes unnoticed" % (call.callee, ks, c),
+                                function=f.name, construct="result-test:" + call.callee)
+                    if not bad:
+                        rep.ok("RESULT-TEST", "%s: results of the program's own status functions are compared with values they return" % f.name, f.loc, "%d comparisons" % nt)
             # RETVAL
             want = (ref_ret.get(f.file) or {}).get(key)
             if want is not None:
